@@ -629,7 +629,8 @@ class TemplateNode(WikiNode):
             parameter_name: Union[str, int] = ""
             if len(parameter_list) == 0:
                 unnamed_parameter_index += 1
-                parameters[unnamed_parameter_index] = ""
+                # (a list like every other entry: a later "1=x" appends to it)
+                parameters[unnamed_parameter_index].append("")
 
             for index, parameter in enumerate(parameter_list):
                 if index == 0:
